@@ -18,6 +18,7 @@ func init() {
 	vpRegister("VPH_C13_authsys", VPH_C13_authsys)
 	vpRegister("VPH_C13_record_read", VPH_C13_record_read)
 	vpRegister("VPH_C13_record_write", VPH_C13_record_write)
+	vpRegister("VPH_C13_record_write_sizes", VPH_C13_record_write_sizes)
 	vpRegister("VPH_C13_record_limit", VPH_C13_record_limit)
 	vpRegister("VPH_C13_record_limit_total", VPH_C13_record_limit_total)
 }
@@ -455,4 +456,26 @@ func VPH_C13_record_limit_total() {
 	if err == nil {
 		vpAssert(len(got) <= M, "no-record-longer-than-the-limit")
 	}
+}
+
+// VPH_C13_record_write_sizes: the default writer then the reader is the identity for a record of
+// every length from 0 to 1100 bytes (fixed content), two records in a row: nothing about a
+// particular length (a buffer size, a power of two) loses or adds bytes.
+func VPH_C13_record_write_sizes() {
+	n := 550*vpChoose("n-upper-half", 0, 1) + vpChoose("n", 0, 550)
+	data := make([]byte, n)
+	for i := range data {
+		data[i] = byte(i*13 + 5)
+	}
+	var wire bytes.Buffer
+	w := NewRecordMarkingWriter(&wire)
+	vpAssert(w.WriteRecord(data) == nil, "write-ok")
+	vpAssert(w.WriteRecord([]byte{9, 8, 7}) == nil, "second-write-ok")
+	vpAssert(wire.Len() == n+4+7, "wire-size")
+	r := NewRecordMarkingReader(bytes.NewReader(wire.Bytes()))
+	got, err := r.ReadRecord()
+	vpAssert(err == nil, "read-ok")
+	vpAssert(bytes.Equal(got, data), "identity")
+	got2, err2 := r.ReadRecord()
+	vpAssert(vpAnd(err2 == nil, bytes.Equal(got2, []byte{9, 8, 7})), "next-record-intact")
 }
